@@ -182,6 +182,9 @@ async def run_superstep_async(
         if isinstance(first_error, ExecutionError):
             raise first_error
         if not isinstance(first_error, Exception):
+            # A pause raised from a nested graph: siblings that completed in this
+            # superstep keep their results in the partial state
+            first_error._partial_state = new_state  # type: ignore[attr-defined]
             raise first_error
         raise ExecutionError(first_error, new_state) from first_error
 
